@@ -427,9 +427,18 @@ class Serializer:
             The metadata dict that can be passed to the API.
 
         Raises:
-            ValueError: if the
+            ValueError: if a measurement key is used by more than one measurement, or if the
+                keys plus targets are too long to fit in the metadata.
         """
-        key_values = [f'{op["key"]}{chr(31)}{op["targets"]}' for op in meas_ops]
+        ops = list(meas_ops)
+        keys = [op['key'] for op in ops]
+        repeated_keys = sorted({key for key in keys if keys.count(key) > 1})
+        if repeated_keys:
+            raise ValueError(
+                'IonQ API results hold one entry per measurement key, so every measurement in the '
+                f'circuit needs its own key. Repeated keys: {repeated_keys}'
+            )
+        key_values = [f'{op["key"]}{chr(31)}{op["targets"]}' for op in ops]
         full_str = chr(30).join(key_values)
         # IonQ maximum value size for metadata.
         max_value_size = 40
